@@ -166,6 +166,22 @@ Fixpoint odometer (start edges : list Z) : list (list Z) :=
   | _, _ => [[]]
   end.
 
+(** the transfer plan of NCvario for a multi-dimensional request: the positions at which the ripple counter
+    issues an I/O, and the number of elements of each (None: NCvcmaxcontig rejected an edge) *)
+Definition vario_plan (m : mstate) (start edges : list Z) : option (list (list Z) * Z) :=
+  match vcmaxcontig m start edges with
+  | None => None
+  | Some k =>
+      Some (match k with
+            | O => [start]
+            | _ => map (fun p => p ++ skipn k start) (odometer (firstn k start) (firstn k edges))
+            end, prod (skipn k edges))
+  end.
+
+(** byte offsets of the elements moved by one transfer *)
+Definition block (m : mstate) (iocount : Z) (p : list Z) : list Z :=
+  map (fun j => varoffset m p + j * m_esz m) (zseq iocount).
+
 Record io_acc := mkAcc { acc_m : mstate; acc_tr : list transfer; acc_cells : list cell; acc_vals : list cell }.
 
 (** the "doit" block of the ripple counter at every position; stops at the first failure (return -1) *)
@@ -219,17 +235,11 @@ Definition vario (writing : bool) (start edges : list Z) (a : io_acc) : bool * i
           let a1 := mkAcc m1 (acc_tr a ++ tr1) (acc_cells a) (acc_vals a) in
           if is_recvar m1 && (length (m_shape m1) =? 1)%nat then simplerecio writing start edges a1
           else
-            match vcmaxcontig m1 start edges with
+            match vario_plan m1 start edges with
             | None => (false, a1)
-            | Some k =>
-                let iocount := prod (skipn k edges) in
+            | Some (positions, iocount) =>
                 if iocount =? 0 then (true, a1)
                 else
-                  let positions :=
-                    match k with
-                    | O => [start]
-                    | _ => map (fun p => p ++ skipn k start) (odometer (firstn k start) (firstn k edges))
-                    end in
                   let (ok, a2) := vario_loop writing iocount positions a1 in
                   if ok then
                     (* kludge at the end of NCvario: numrecs follows the upper corner *)
